@@ -370,6 +370,33 @@ var Items = []Item{
 	{ID: "map-missing-struct", Decls: "type Mv2%N% struct {\n\ta uint64\n\tb bool\n}", Core: "m := make(map[uint64]Mv2%N%)\n\tm[1] = Mv2%N%{a: 5, b: true}\n\tx := m[3]\n\ty := m[1]\n\tif !x.b {\n\t\tr = x.a + y.a + 1\n\t}", NoCtx: true},
 	{ID: "map-missing-slice", Core: "m := make(map[uint64][]uint64)\n\tm[1] = make([]uint64, 2)\n\tr = uint64(len(m[3]))*10 + uint64(len(m[1])) + 1", NoCtx: true},
 	{ID: "map-missing-pointer", Core: "m := make(map[uint64]*uint64)\n\tp := new(uint64)\n\tm[1] = p\n\tif m[3] == nil {\n\t\tr = 1\n\t}\n\tif m[1] != nil {\n\t\tr += 2\n\t}", NoCtx: true},
+	// two-valued map lookup × syntactic position (parenthesised, assignment instead of definition, nested, as
+	// key, in a call argument next to a two-result call; seeded change C01-25 and two real defects)
+	{ID: "map-comma-ok-parenthesised", Core: "m := make(map[uint64]uint64)\n\tm[1] = 5\n\t_, ok := (m[1])\n\tif ok {\n\t\tr = 1\n\t}", NoCtx: true},
+	{ID: "map-comma-ok-parenthesised-value", Core: "m := make(map[uint64]uint64)\n\tm[1] = 5\n\tv, ok := (m[1])\n\tif ok {\n\t\tr = v + 1\n\t}", NoCtx: true},
+	{ID: "map-comma-ok-assign", Core: "m := make(map[uint64]uint64)\n\tm[1] = 5\n\tvar v uint64\n\tvar ok bool\n\tv, ok = m[1]\n\tif ok {\n\t\tr = v + 1\n\t}", NoCtx: true},
+	{ID: "map-comma-ok-assign-missing", Core: "m := make(map[uint64]uint64)\n\tm[1] = 5\n\tvar v uint64 = 9\n\tvar ok bool = true\n\tv, ok = m[2]\n\tif !ok {\n\t\tr = v + 1\n\t}", NoCtx: true},
+	{ID: "map-comma-ok-assign-blank", Core: "m := make(map[uint64]uint64)\n\tm[1] = 5\n\tvar ok bool\n\t_, ok = m[1]\n\tif ok {\n\t\tr = 1\n\t}", NoCtx: true},
+	{ID: "map-comma-ok-nested-map", Core: "mm := make(map[uint64]map[uint64]uint64)\n\tmm[1] = make(map[uint64]uint64)\n\tmm[1][2] = 7\n\tv, ok := mm[1][2]\n\tif ok {\n\t\tr = v + 1\n\t}", NoCtx: true},
+	{ID: "map-comma-ok-lookup-as-key", Core: "idx := make(map[uint64]uint64)\n\tidx[1] = 4\n\ttbl := make(map[uint64]uint64)\n\ttbl[4] = 9\n\tv, ok := tbl[idx[1]]\n\tif ok {\n\t\tr = v + 1\n\t}", NoCtx: true},
+	{ID: "map-lookup-in-two-result-call-arg", Decls: "func dm%N%(a uint64, b uint64) (uint64, uint64) {\n\treturn a / b, a % b\n}", Core: "m := make(map[uint64]uint64)\n\tm[1] = 47\n\tq, x := dm%N%(m[1], 10)\n\tr = q*100 + x", NoCtx: true},
+	{ID: "map-lookup-in-two-result-call-arg-assign", Decls: "func dm%N%(a uint64, b uint64) (uint64, uint64) {\n\treturn a / b, a % b\n}", Core: "m := make(map[uint64]uint64)\n\tm[1] = 47\n\tvar q uint64\n\tvar x uint64\n\tq, x = dm%N%(m[1]+9, 10)\n\tr = q*100 + x", NoCtx: true},
+	{ID: "map-lookup-nested-one-valued", Core: "m := make(map[uint64]uint64)\n\tm[1] = 2\n\tm[2] = 9\n\tr = m[m[1]]", NoCtx: true},
+	// type assertions × operand kind × form
+	{ID: "type-assert-named-interface-to-struct", Decls: "type Ti%N% interface {\n\tget() uint64\n}\n\ntype Ts%N% struct {\n\tx uint64\n}\n\nfunc (s Ts%N%) get() uint64 {\n\treturn s.x\n}\n\nfunc ta%N%(i Ti%N%) uint64 {\n\ts := i.(Ts%N%)\n\treturn s.x + 1\n}", Core: "r = ta%N%(Ts%N%{x: 3})", NoCtx: true},
+	{ID: "type-assert-comma-ok", Decls: "type Ti%N% interface {\n\tget() uint64\n}\n\ntype Ts%N% struct {\n\tx uint64\n}\n\nfunc (s Ts%N%) get() uint64 {\n\treturn s.x\n}\n\nfunc ta%N%(i Ti%N%) uint64 {\n\t_, ok := i.(Ts%N%)\n\tif ok {\n\t\treturn 1\n\t}\n\treturn 2\n}", Core: "r = ta%N%(Ts%N%{x: 3})", NoCtx: true},
+	{ID: "type-assert-comma-ok-wrong-type", Decls: "type Ti%N% interface {\n\tget() uint64\n}\n\ntype Ts%N% struct {\n\tx uint64\n}\n\nfunc (s Ts%N%) get() uint64 {\n\treturn s.x\n}\n\ntype Tu%N% struct {\n\ty uint64\n}\n\nfunc (s Tu%N%) get() uint64 {\n\treturn s.y\n}\n\nfunc ta%N%(i Ti%N%) uint64 {\n\tu, ok := i.(Tu%N%)\n\tif ok {\n\t\treturn u.y\n\t}\n\treturn 2\n}", Core: "r = ta%N%(Ts%N%{x: 3})", NoCtx: true},
+	{ID: "type-assert-empty-interface-comma-ok", Core: "var x interface{} = uint64(3)\n\tv, ok := x.(uint64)\n\tif ok {\n\t\tr = v + 1\n\t}", NoCtx: true},
+	{ID: "type-assert-empty-interface-wrong-type", Core: "var x interface{} = uint64(3)\n\t_, ok := x.(bool)\n\tif !ok {\n\t\tr = 1\n\t}", NoCtx: true},
+	// explicit dereference as an assignment target / operand of & × kind of the pointer variable (seeded change C02-11)
+	{ID: "explicit-deref-field-store-var-pointer", Decls: "type Dp%N% struct {\n\tx uint64\n}", Core: "var p *Dp%N% = &Dp%N%{x: 1}\n\t(*p).x = 7\n\tr = p.x", NoCtx: true},
+	{ID: "explicit-deref-field-store-define-pointer", Decls: "type Dp%N% struct {\n\tx uint64\n}", Core: "p := &Dp%N%{x: 1}\n\t(*p).x = 7\n\tr = p.x", NoCtx: true},
+	{ID: "explicit-deref-field-store-param-pointer", Decls: "type Dp%N% struct {\n\tx uint64\n}\n\nfunc ds%N%(p *Dp%N%) {\n\t(*p).x = 7\n}", Core: "q := &Dp%N%{x: 1}\n\tds%N%(q)\n\tr = q.x", NoCtx: true},
+	{ID: "explicit-deref-field-store-through-field", Decls: "type Dp%N% struct {\n\tx uint64\n\tnext *Dp%N%\n}", Core: "p := &Dp%N%{x: 1, next: &Dp%N%{x: 2}}\n\t(*p.next).x = 3\n\tr = p.x*10 + p.next.x", NoCtx: true},
+	{ID: "explicit-deref-field-address-var-pointer", Decls: "type Dp%N% struct {\n\tx uint64\n}", Core: "var p *Dp%N% = &Dp%N%{x: 1}\n\tq := &(*p).x\n\t*q = 7\n\tr = p.x", NoCtx: true},
+	{ID: "address-of-deref-var-pointer", Core: "var p *uint64 = new(uint64)\n\tq := &*p\n\t*q = 7\n\tr = *p", NoCtx: true},
+	{ID: "address-of-deref-define-pointer", Core: "p := new(uint64)\n\tq := &*p\n\t*q = 7\n\tr = *p", NoCtx: true},
+	{ID: "explicit-deref-field-store-loop-pointer", Decls: "type Dp%N% struct {\n\tx uint64\n}", Core: "s := make([]*Dp%N%, 2)\n\ts[0] = &Dp%N%{x: 1}\n\ts[1] = &Dp%N%{x: 2}\n\tfor _, p := range s {\n\t\t(*p).x = 7\n\t}\n\tr = s[0].x + s[1].x", NoCtx: true},
 	{ID: "map-missing-comma-ok-string", Core: "m := make(map[uint64]string)\n\tv, ok := m[3]\n\tif !ok {\n\t\tr = uint64(len(v)) + 1\n\t}", NoCtx: true},
 	{ID: "map-string-key", Core: "m := make(map[string]uint64)\n\tm[\"a\"] = 4\n\tr = m[\"a\"]*10 + m[\"b\"] + 1", NoCtx: true},
 	{ID: "named-map-missing-bool", Decls: "type Nmb%N% map[uint64]bool", Core: "m := make(Nmb%N%)\n\tif !m[3] {\n\t\tr = 1\n\t}", NoCtx: true},
